@@ -10,8 +10,15 @@ from .ty import ANY, BOOL
 from .symexec import SV, EngineError, Unsupported, State, zsort, simp_and, simp_not
 
 
+class NameSet(set):
+    """names a piece of code may change; `mutated_only`: names that are only the receiver of a method call (the local keeps
+    its value when that value is an object reference -- the object's fields are havocked with the heap)"""
+    mutated_only = frozenset()
+
+
 def assigned_names(stmts):
     out = set()
+    mut = set()
     for s in stmts:
         for n in ast.walk(s):
             tg = []
@@ -31,15 +38,31 @@ def assigned_names(stmts):
                 while isinstance(r, (ast.Attribute, ast.Subscript)):
                     r = r.value
                 if isinstance(r, ast.Name):
-                    out.add(r.id)
+                    mut.add(r.id)
             elif isinstance(n, (ast.Import, ast.ImportFrom)):
                 for a in n.names:
                     out.add((a.asname or a.name).split('.')[0])
             for t in tg:
-                for e in ast.walk(t):
+                stack = [t]
+                while stack:
+                    e = stack.pop()
                     if isinstance(e, ast.Name):
                         out.add(e.id)
-    return out
+                    elif isinstance(e, (ast.Tuple, ast.List)):
+                        stack.extend(e.elts)
+                    elif isinstance(e, ast.Starred):
+                        stack.append(e.value)
+                    elif isinstance(e, (ast.Subscript, ast.Attribute)):
+                        # x[k] = v / x.a = v: the container value held by x changes (an object reference does not); names in
+                        # the index expression are only read
+                        r = e.value
+                        while isinstance(r, (ast.Attribute, ast.Subscript)):
+                            r = r.value
+                        if isinstance(r, ast.Name):
+                            mut.add(r.id)
+    res = NameSet(out | mut)
+    res.mutated_only = frozenset(mut - out)
+    return res
 
 
 def havoc_state(fv, st, names, why=''):
@@ -58,6 +81,8 @@ def havoc_state(fv, st, names, why=''):
     for n in sorted(names):
         if n == 'self' or n.startswith('__'):
             continue
+        if n in getattr(names, 'mutated_only', ()) and n in st.env and st.env[n].ty.strip_opt().is_obj:
+            continue        # receiver of a method call: the reference itself cannot change
         if n not in st.env and fv.module is not None and (n in fv.module.imports or n in fv.module.functions
                                                           or n in fv.module.classes or n in fv.module.globals):
             continue        # a module-level name (import alias, function, class), not a local
@@ -196,7 +221,9 @@ def slice_loop(fv, s, st):
     names = assigned_names(s.body)
     src = None
     if isinstance(s, ast.For):
-        names |= assigned_names([ast.Assign(targets=[s.target], value=ast.Constant(value=None))])
+        tnames = assigned_names([ast.Assign(targets=[s.target], value=ast.Constant(value=None))])
+        names |= tnames
+        names.mutated_only = frozenset(names.mutated_only - tnames)
         try:
             nf = len(fv.obligations)
             from .comps import iter_source
